@@ -199,6 +199,9 @@ func routed(it Item) (string, bool) {
 				return "", false
 			}
 			switch {
+			case it.Method == "DELETE" && id == "all":
+				// the "all" routes come before the named ones (http.go): handle*DeleteAll sends the reserved id
+				return lib.App(k.del, hxs("deleteAll")), true
 			case it.Method == "DELETE":
 				return lib.App(k.del, hxs(id)), true
 			case it.Method == "GET" && id == "all":
